@@ -1,4 +1,5 @@
 import GeomV.C04.Model
+import GeomV.C04.After
 import GeomV.C04.Spec
 import GeomV.C04.NaN
 import GeomV.C04.SpecNaN
@@ -44,6 +45,7 @@ structure GeomAns where
   pts : List (Pt UInt64)
   indep : Bool
   beyond : Option (Option (Pt UInt64))   -- the call after the last vertex: absent | panic | the point returned
+  after : Option (List (Option (Pt UInt64)))   -- the calls after `Len()` calls / after the first panic: panic | point
   bnd : Option (Option (UInt64 × UInt64 × UInt64 × UInt64))   -- none = panic, some none = nil
   again : Bool
   swap : Option (Option (Nat × Bool × List (Pt UInt64) × Option (Option (UInt64 × UInt64 × UInt64 × UInt64))))
@@ -76,6 +78,20 @@ def pGeomAns (t : Tok) : Option GeomAns := do
       let x ← parseU64 x; let y ← parseU64 y
       pure (some (some (⟨x, y⟩ : Pt UInt64)), t)
     | t => pure (none, t)
+  let (after, t) ← match t with
+    | "after" :: k :: t => do
+      let k ← k.toNat?
+      let rec go : Nat → Tok → Option (List (Option (Pt UInt64)) × Tok)
+        | 0, t => some ([], t)
+        | n+1, "p" :: "p" :: t => do let (rs, t) ← go n t; pure (none :: rs, t)
+        | n+1, x :: y :: t => do
+          let x ← parseU64 x; let y ← parseU64 y
+          let (rs, t) ← go n t
+          pure (some (⟨x, y⟩ : Pt UInt64) :: rs, t)
+        | _, _ => none
+      let (rs, t) ← go k t
+      pure (some rs, t)
+    | t => pure (none, t)
   let (bnd, t) ← match t with
     | "bnd" :: "panic" :: t => pure (none, t)
     | "bnd" :: t => do let (r, t) ← pBoxRes t; pure (some r, t)
@@ -102,7 +118,7 @@ def pGeomAns (t : Tok) : Option GeomAns := do
       | "bnd" :: t => do let (r, _) ← pBoxRes t; pure (some (some (n, st == "ok", ps, some r)))
       | _ => none
     | _ => none
-  pure { len := len, ptsOk := ptsOk, ptsNoLen := noLen, nilDrain := nilDrain, pts := pts, indep := indep, beyond := beyond, bnd := bnd, again := again, swap := swap, hist := hist, mutated := mutd }
+  pure { len := len, ptsOk := ptsOk, ptsNoLen := noLen, nilDrain := nilDrain, pts := pts, indep := indep, beyond := beyond, after := after, bnd := bnd, again := again, swap := swap, hist := hist, mutated := mutd }
 
 def geomClass : BGeom → String
   | .point _ => "point" | .multiPoint _ => "multipoint" | .lineString _ => "linestring"
@@ -345,6 +361,26 @@ def judgeGeom (g : BGeom) (rhs : Tok) : String :=
         | some ps =>
           if ps == drainToFault g ((verticesBits g).length + 2) then none
           else some s!"points-before-the-nil-member impl={ps.length}"
+      -- the calls after `Len()` calls, resp. after the first panic (unspecified by the property; the model's `nextS`
+      -- keeps the captured variables where the panic left them; C04_points_after_fault)
+      let dAft : Option String := match a.after with
+        | none => none
+        | some rs =>
+          let m := match a.len with
+            | some n => @afterCalls UInt64 bitsLT bitsDecLT g n rs.length
+            | none => @afterFirstFault UInt64 bitsLT bitsDecLT g ((verticesBits g).length + 2) rs.length
+          match m with
+          | none => some "calls-after-the-panic model=Points()-panics"
+          | some ms =>
+            let same := ms.length == rs.length && (ms.zip rs).all fun (mr, r) =>
+              match mr, r with
+              | .ok v, some w => v == w
+              | .error _, none => true
+              | _, _ => false
+            if same then none else
+              let sh := fun (l : List Bool) => String.ofList (l.map fun b => if b then 'v' else 'p')
+              some s!"calls-after-the-panic model={sh (ms.map fun r => match r with | .ok _ => true | .error _ => false)} impl={sh (rs.map (·.isSome))}"
+      let dNil := match dNil with | some w => some w | none => dAft
       let dPts := match dPts with | some w => some w | none => (match dBey with | some w => some w | none => dNil)
       match dLen, dPts, dBnd with
       | none, none, none => s!"OK {cls}"
